@@ -193,7 +193,27 @@ func newMachine(src string, vars [][2]interface{}, fns []FnSpec, optimize bool, 
 		m.E.SetVariable(kv[0].(string), kv[1].(object.Object))
 	}
 	for _, f := range fns {
-		f := f
+		m.addFunction(f)
+	}
+	var err error
+	func() {
+		defer func() {
+			if r := recover(); r != nil {
+				err = fmt.Errorf("PANIC in Prepare: %v", r)
+			}
+		}()
+		if optimize {
+			err = m.E.Prepare()
+		} else {
+			err = m.E.Prepare([]byte{evalfilter.NoOptimize})
+		}
+	}()
+	return m, err
+}
+
+// addFunction registers (or replaces) a host function of the given kind
+func (m *Machine) addFunction(f FnSpec) {
+	{
 		m.E.AddFunction(f.Name, func(args []object.Object) object.Object {
 			c := Call{Name: f.Name}
 			for _, a := range args {
@@ -230,20 +250,6 @@ func newMachine(src string, vars [][2]interface{}, fns []FnSpec, optimize bool, 
 			return &object.Void{}
 		})
 	}
-	var err error
-	func() {
-		defer func() {
-			if r := recover(); r != nil {
-				err = fmt.Errorf("PANIC in Prepare: %v", r)
-			}
-		}()
-		if optimize {
-			err = m.E.Prepare()
-		} else {
-			err = m.E.Prepare([]byte{evalfilter.NoOptimize})
-		}
-	}()
-	return m, err
 }
 
 // execAct performs one API action: "run" calls Run and reports its verdict as a boolean
